@@ -31,6 +31,7 @@ RULE += (' Also: what an awaitable resolves to may itself be awaitable payload (
 RULE += (' Also: a StopAsyncIteration raised by an awaitable given to await_each surfaces as RuntimeError (caused by it), the stream does not end quietly.')
 RULE += (' Also: sync() of classes (plain, and with instances that have an async def __call__).')
 RULE += (' Also: plain callables presenting themselves as the coroutine function they wrap (functools.wraps / __wrapped__) and returning plain values.')
+RULE += (' Also: items / results that merely expose an __await__ attribute (not awaitable); concurrent.futures.Future results.')
 ASSUMPTIONS = ["direct specification oracle (no stdlib twin exists for these helpers)"]
 EXHAUSTIVE = {"quick": True, "thorough": True}
 MAX_SHARDS = 8
@@ -41,7 +42,7 @@ def cases(tier, seed, shard, nshards):
     for n in range(0, 7):
         for outer_aw in (False, True, "awaitobj", "future_like"):
             for cont in ("list", "iterator", "aiter"):
-                for item_aw in (False, True, "awaitobj", "mixed"):
+                for item_aw in (False, True, "awaitobj", "mixed", "lookalike"):
                     for steps in range(0, n + 2):
                         for susp in (0, 1):
                             idx += 1
@@ -81,7 +82,8 @@ def cases(tier, seed, shard, nshards):
     for flav in ("def", "async_def", "partial", "callobj", "lambda_awaitable", "def_raises", "async_raises",
                  "callobj_plain", "notcallable", "awaitable_value", "lambda_awaitable_raises", "callobj_raises",
                  "awaitable_value_raises", "partial_raises", "class_async_call_instances", "class_plain",
-                 "wraps_blocking", "wraps_blocking_raises", "callobj_wrapped_attr"):
+                 "wraps_blocking", "wraps_blocking_raises", "callobj_wrapped_attr", "def_lookalike",
+                 "def_concurrent_future"):
         for susp in (0, 1):
             for exc in (excs if flav.endswith("raises") else ["KeyError"]):
                 idx += 1
@@ -335,6 +337,8 @@ def run_any_iter(case, stats):
 
     def wrapped(i):
         kind = case["item_aw"]
+        if kind == "lookalike":
+            return False
         return bool([False, True, "awaitobj"][i % 3] if kind == "mixed" else kind)
 
     # what an item awaitable RESOLVES to may itself happen to be awaitable (a job handle): it is the item, delivered
@@ -342,6 +346,25 @@ def run_any_iter(case, stats):
     items = [AwaitablePayload(("x", i)) if wrapped(i) and i % 2 else Item(i, ("x", i)) for i in range(n)]
     awaited = []
     events = []
+    if case["item_aw"] == "lookalike":
+        # plain items that merely EXPOSE an ``__await__`` attribute without being awaitable: a class whose instances are
+        # awaitable (the class object is the item), a proxy / stub whose __getattr__ answers every name.  ``await``
+        # looks the slot up on the type - these are not awaitable, they are handed on as they are
+        def lookalike(i):
+            if i % 2:
+                class Job:
+                    def __await__(self):
+                        awaited.append(i)
+                        return iter(())
+                return Job
+
+            class Stub:
+                def __getattr__(self, name):
+                    if name.startswith("__") and name != "__await__":
+                        raise AttributeError(name)
+                    return lambda *a, **k: awaited.append((i, name)) or iter(())
+            return Stub()
+        items = [lookalike(i) for i in range(n)]
 
     async def aw(i, item):
         awaited.append(i)
@@ -361,6 +384,8 @@ def run_any_iter(case, stats):
 
     def cell(i, item):
         kind = case["item_aw"]
+        if kind == "lookalike":
+            return item
         if kind == "mixed":
             kind = [False, True, "awaitobj"][i % 3]
         if kind == "awaitobj":
@@ -423,11 +448,13 @@ def run_any_iter(case, stats):
         exp_aw = list(range(min(case["steps"], n)))
         if case["item_aw"] == "mixed":
             exp_aw = [i for i in exp_aw if i % 3]
+        if case["item_aw"] == "lookalike":
+            exp_aw = []
         if awaited != exp_aw:
             viols.append({"key": "any_iter/await-order", "msg": f"any_iter {case}: item awaitables awaited {awaited}, expected {exp_aw}"})
     # un-awaited coroutines of the list shape are ours to dispose of - and must still be ours: any_iter may
     # neither start nor close an item its consumer never asked for
-    if case["item_aw"] and case["cont"] == "list":
+    if case["item_aw"] and case["item_aw"] != "lookalike" and case["cont"] == "list":
         import inspect
         spoiled = [i for i, c in enumerate(cont) if i >= case["steps"] and inspect.iscoroutine(c)
                    and inspect.getcoroutinestate(c) != inspect.CORO_CREATED]
@@ -666,8 +693,20 @@ def run_sync(case, stats):
     CTX.reset()
     flav, susp = case["flav"], case["susp"]
     # (where the callable hands out an awaitable, what THAT resolves to may again be awaitable: it is the result)
-    result = Item(1, "res") if flav in ("def", "callobj_plain", "def_raises", "notcallable", "wraps_blocking",
-                                      "wraps_blocking_raises", "callobj_wrapped_attr") else AwaitablePayload("res")
+    if flav == "def_lookalike":
+        # a plain value that merely exposes an __await__ attribute (not awaitable): the result, as it is
+        from ..tools import Lookalike
+        result = Lookalike("res")
+    elif flav == "def_concurrent_future":
+        # a concurrent.futures.Future (what Executor.submit gives) is a plain, non-awaitable value: the result
+        import concurrent.futures
+        result = concurrent.futures.Future()
+        result.set_result("done")
+    elif flav in ("def", "callobj_plain", "def_raises", "notcallable", "wraps_blocking", "wraps_blocking_raises",
+                  "callobj_wrapped_attr"):
+        result = Item(1, "res")
+    else:
+        result = AwaitablePayload("res")
     boom = EXC[case.get("exc", "KeyError")]("boom")
     calls = []
 
@@ -727,7 +766,7 @@ def run_sync(case, stats):
     class CallWrappedAttr(CallPlain):
         __wrapped__ = staticmethod(ad)
 
-    fn = {"wraps_blocking": blocking, "wraps_blocking_raises": blocking_raises, "callobj_wrapped_attr": CallWrappedAttr(),
+    fn = {"def_lookalike": d, "def_concurrent_future": d, "wraps_blocking": blocking, "wraps_blocking_raises": blocking_raises, "callobj_wrapped_attr": CallWrappedAttr(),
           "def": d, "async_def": ad, "partial": functools.partial(ad, 1), "callobj": CallObj(),
           "lambda_awaitable": (lambda a, b=2: ad(a, b)), "def_raises": draise, "async_raises": araise,
           "callobj_plain": CallPlain(), "notcallable": 5, "awaitable_value": (lambda a, b=2: AwaitableValue()),
